@@ -25,11 +25,13 @@ Proof.
   { intros u Hu.
     assert (Hnw : ~ In u wk) by (intros X; destruct (Hw u X) as (_ & _ & Y); rewrite Y in Hu; discriminate).
     rewrite (Ho u Hnw) in Hu. apply (wf_sleep _ _ W) in Hu.
-    rewrite N1, C1. unfold hempty. destruct (hq (s_sleepq st)); [destruct Hu|reflexivity]. }
+    rewrite N1, C1. subst now1. unfold hempty. destruct (hq (s_sleepq st)); [destruct Hu|reflexivity]. }
   destruct (negb (Nat.eqb count 0) || negb (match s_runq st1 with [_] => true | _ => false end)) eqn:E.
   - destruct (s_runq st1) as [|a [|to r]] eqn:Er.
-    + intros u Hu. unfold do_yield in *. rewrite Er in *. simpl in *. rewrite <- N1. apply Hd. exact Hu.
-    + intros u Hu. unfold do_yield in *. rewrite Er in *. simpl in *. rewrite <- N1. apply Hd. exact Hu.
+    + intros u Hu. unfold do_yield in *. rewrite Er in *. change (getth (set_stuck st1) u) with (getth st1 u) in *.
+      change (s_now (set_stuck st1)) with (s_now st1). rewrite N1. apply Hd. exact Hu.
+    + intros u Hu. unfold do_yield in *. rewrite Er in *. change (getth (set_stuck st1) u) with (getth st1 u) in *.
+      change (s_now (set_stuck st1)) with (s_now st1). rewrite N1. apply Hd. exact Hu.
     + pose proof (wf_nodup _ _ W1) as Hnd1. rewrite Er in Hnd1.
       assert (Hne : a <> to) by (inversion Hnd1 as [|? ? Hx _]; subst; intros ->; apply Hx; left; auto).
       assert (Hf : (a < nthreads st1)%nat) by (apply (ring_in_range unit); auto; rewrite Er; left; auto).
